@@ -125,8 +125,8 @@ def _exp1(x):
 def _log1(x):
     if isinstance(x, Sym):
         return x.log()
-    if x == 0:
-        return -math.inf
+    if x == 0 or (ST.kappa_zero and x == 1e-100):
+        return -math.inf          # Factor.log's +1e-100 regulariser is checked at 0
     return math.log(x)
 
 
@@ -355,19 +355,21 @@ def install_fakes():
         sys.modules["hdmm.matrix"] = mat
 
 
-_PATCHES = []   # (module, name, original)
+_PATCHES = []   # (module, name, original, had, persist)
 
 
-def shadow(mod, **names):
+def shadow(mod, _persist=False, **names):
+    """_persist: the shadow stays in force inside shims_off() too (loop cuts and silenced prints must hold for
+    the symbolic and the float execution alike, otherwise they are different programs)"""
     for k, v in names.items():
         had = k in mod.__dict__
-        _PATCHES.append((mod, k, mod.__dict__.get(k), had))
+        _PATCHES.append((mod, k, mod.__dict__.get(k), had, _persist))
         mod.__dict__[k] = v
 
 
 def unshadow_all():
     while _PATCHES:
-        mod, k, old, had = _PATCHES.pop()
+        mod, k, old, had, _ = _PATCHES.pop()
         if had:
             mod.__dict__[k] = old
         else:
@@ -378,11 +380,9 @@ class shims_off:
     """temporarily run the real, unshimmed code (fidelity tests, replays)"""
 
     def __enter__(self):
-        self.saved = list(_PATCHES)
-        for mod, k, old, had in reversed(self.saved):
-            self.cur = None
-        self.current = [(mod, k, mod.__dict__.get(k)) for mod, k, _, _ in self.saved]
-        for mod, k, old, had in reversed(self.saved):
+        self.saved = [p for p in _PATCHES if not p[4]]
+        self.current = [(mod, k, mod.__dict__.get(k)) for mod, k, _, _, _ in self.saved]
+        for mod, k, old, had, _ in reversed(self.saved):
             if had:
                 mod.__dict__[k] = old
             else:
